@@ -467,7 +467,7 @@ func VH18a_modes() {
 		verif.Assert(!g.Done() || err == mangos.ErrProtoState, lab+"/recv-without-deadline-gave-up")
 		verif.Reach("waits")
 	}
-	sock.Close()
+	vp.CloseCensus(sock, "C10/after-deadlines")
 }
 
 // inbound: wire bytes of one inbound message with body b for the given pattern (receiving side)
@@ -548,7 +548,7 @@ func VH18c_repeat() {
 	}
 	verif.Assert(!peer.Closed, lab+"/peer-disconnected-by-timeouts")
 	verif.Reach("repeat-checked")
-	sock.Close()
+	vp.CloseCensus(sock, "C10/after-deadlines")
 }
 
 // VH18g_lattice: every subset of {best effort, fail-no-peers, send deadline} set together on a socket or context,
@@ -667,7 +667,7 @@ func VH18g_lattice() {
 		verif.Reach("lattice-recv-after")
 	}
 	verif.Reach("lattice-checked")
-	sock.Close()
+	vp.CloseCensus(sock, "C10/after-deadlines")
 }
 
 // VH18f_deadline_vs_arrival: the awaited message arrives at the very moment the receive deadline expires (both are
@@ -750,7 +750,7 @@ func VH18f_deadline_vs_arrival() {
 	verif.RunClockTo(t0 + D)
 	verif.Assert(g.Done() && err == mangos.ErrRecvTimeout, lab+"/recv-hangs-beyond-its-deadline")
 	verif.Reach("deadline-vs-arrival-checked")
-	sock.Close()
+	vp.CloseCensus(sock, "C10/after-deadlines")
 }
 
 // VH18e_send_repeat: R send deadlines in a row expire against a stalled peer (WRITEQ-LEN 1), each at its own instant
@@ -859,7 +859,7 @@ func VH18e_send_repeat() {
 	}
 	verif.Assert(seen['Z'] == 1, lab+"/message-sent-after-the-timeouts-did-not-arrive")
 	verif.Reach("send-repeat-checked")
-	sock.Close()
+	vp.CloseCensus(sock, "C10/after-deadlines")
 }
 
 // VH12g_write_fault: on a socket of any pattern that can send, the connection a
@@ -916,7 +916,7 @@ func VH12g_write_fault() {
 	}
 	verif.Assert(bad.SendCalls == 1, lab+"/dead-connection-offered-traffic-again")
 	verif.Reach("write-fault-checked")
-	sock.Close()
+	vp.CloseCensus(sock, "C10/after-deadlines")
 }
 
 // VH18d_toggle: fail-no-peers is switched on and off while peers come and go:
@@ -1002,5 +1002,5 @@ func VH18d_toggle() {
 	}
 	_ = werr
 	verif.Reach("toggled")
-	sock.Close()
+	vp.CloseCensus(sock, "C10/after-deadlines")
 }
